@@ -101,6 +101,7 @@ func main() {
 		if strings.Contains(p.PkgPath, "/verifrt") || strings.Contains(p.PkgPath, "/verifmain") {
 			continue
 		}
+		collectFacts(p)
 		for i, f := range p.Syntax {
 			fname := p.CompiledGoFiles[i]
 			if strings.HasSuffix(fname, "_test.go") {
@@ -160,6 +161,9 @@ func main() {
 	os.WriteFile(filepath.Join(*out, "overlay.json"), ob, 0o644)
 	sj, _ := json.MarshalIndent(sites, "", " ")
 	os.WriteFile(filepath.Join(*out, "sites.json"), sj, 0o644)
+	finishFacts()
+	fj, _ := json.MarshalIndent(facts, "", " ")
+	os.WriteFile(filepath.Join(*out, "facts.json"), fj, 0o644)
 	fmt.Printf("vinstr: %d files, %d sites\n", len(overlay), len(sites))
 }
 
@@ -717,4 +721,202 @@ func (rw *rewriter) wrapMethod(n *ast.FuncDecl) {
 	call := rw.rtCall("Call", args...)
 	ret := rw.rtCall("Ret", append([]ast.Expr{call}, resPtrs...)...)
 	n.Body.List = append([]ast.Stmt{&ast.DeferStmt{Call: ret}}, n.Body.List...)
+}
+
+
+// ---------------------------------------------------------------- facts (translator input, DESIGN.md §3.2)
+
+type Facts struct {
+	Consts              map[string]int64    `json:"consts"`
+	JobStatusStrings    [][2]any            `json:"jobStatusStrings"`
+	WorkerStatusStrings [][2]any            `json:"workerStatusStrings"`
+	ParseStatusStrings  [][2]any            `json:"parseStatusStrings"`
+	RegisterCalls       map[string]int      `json:"registerCalls"`
+	Guards              map[string][]string `json:"guardsByFunc"`
+}
+
+var facts = Facts{Consts: map[string]int64{}, RegisterCalls: map[string]int{}, Guards: map[string][]string{}}
+
+type fnode struct {
+	name    string
+	callees []types.Object
+	regs    int
+}
+
+var fgraph = map[types.Object]*fnode{}
+
+func exprText(fset *token.FileSet, n ast.Node) string {
+	var b bytes.Buffer
+	printer.Fprint(&b, fset, n)
+	return strings.Join(strings.Fields(b.String()), "")
+}
+
+func constInt(info *types.Info, e ast.Expr) (int64, bool) {
+	if tv, ok := info.Types[e]; ok && tv.Value != nil {
+		if s := tv.Value.ExactString(); s != "" {
+			if v, err := strconv.ParseInt(s, 10, 64); err == nil {
+				return v, true
+			}
+		}
+	}
+	return 0, false
+}
+
+func collectFacts(p *packages.Package) {
+	info := p.TypesInfo
+	fset := p.Fset
+	for i, f := range p.Syntax {
+		if strings.HasSuffix(p.CompiledGoFiles[i], "_test.go") {
+			continue
+		}
+		for _, d := range f.Decls {
+			switch d := d.(type) {
+			case *ast.GenDecl:
+				for _, sp := range d.Specs {
+					vs, ok := sp.(*ast.ValueSpec)
+					if !ok {
+						continue
+					}
+					for k, nm := range vs.Names {
+						if d.Tok == token.CONST {
+							if c, ok := info.Defs[nm].(*types.Const); ok {
+								if v, err := strconv.ParseInt(c.Val().ExactString(), 10, 64); err == nil {
+									facts.Consts[p.Types.Name()+"."+nm.Name] = v
+								}
+							}
+						} else if k < len(vs.Values) {
+							if v, ok := constInt(info, vs.Values[k]); ok {
+								facts.Consts[p.Types.Name()+"."+nm.Name] = v
+							}
+						}
+					}
+				}
+			case *ast.FuncDecl:
+				name := d.Name.Name
+				if d.Recv != nil && len(d.Recv.List) > 0 {
+					name = recvBase(d.Recv.List[0].Type) + "." + name
+				}
+				obj := info.Defs[d.Name]
+				node := &fnode{name: name}
+				if obj != nil {
+					fgraph[obj] = node
+				}
+				if d.Body == nil {
+					continue
+				}
+				var conds []string
+				ast.Inspect(d.Body, func(n ast.Node) bool {
+					switch n := n.(type) {
+					case *ast.IfStmt:
+						conds = append(conds, "if:"+exprText(fset, n.Cond))
+					case *ast.ForStmt:
+						if n.Cond != nil {
+							conds = append(conds, "for:"+exprText(fset, n.Cond))
+						}
+					case *ast.ReturnStmt:
+						if name == "heapQueue.Less" || name == "WgCounter.Done" {
+							for _, r := range n.Results {
+								conds = append(conds, "ret:"+exprText(fset, r))
+							}
+						}
+					case *ast.CallExpr:
+						var id *ast.Ident
+						switch fn := n.Fun.(type) {
+						case *ast.Ident:
+							id = fn
+						case *ast.SelectorExpr:
+							id = fn.Sel
+						case *ast.IndexExpr:
+							if x, ok := fn.X.(*ast.Ident); ok {
+								id = x
+							}
+						}
+						if id != nil {
+							if id.Name == "Register" {
+								node.regs++
+							} else if o := info.Uses[id]; o != nil {
+								if fo, ok := o.(*types.Func); ok {
+									if org := fo.Origin(); org != nil {
+										node.callees = append(node.callees, org)
+									} else {
+										node.callees = append(node.callees, fo)
+									}
+								}
+							}
+						}
+					case *ast.SwitchStmt:
+						// status string tables
+						if d.Name.Name == "Status" || d.Name.Name == "parseToJob" {
+							for _, cs := range n.Body.List {
+								cc := cs.(*ast.CaseClause)
+								if len(cc.List) != 1 || len(cc.Body) == 0 {
+									continue
+								}
+								if d.Name.Name == "Status" {
+									v, ok1 := constInt(info, cc.List[0])
+									rs, ok2 := cc.Body[0].(*ast.ReturnStmt)
+									if ok1 && ok2 && len(rs.Results) == 1 {
+										if bl, ok := rs.Results[0].(*ast.BasicLit); ok {
+											str, _ := strconv.Unquote(bl.Value)
+											if strings.HasPrefix(name, "worker.") {
+												facts.WorkerStatusStrings = append(facts.WorkerStatusStrings, [2]any{v, str})
+											} else {
+												facts.JobStatusStrings = append(facts.JobStatusStrings, [2]any{v, str})
+											}
+										}
+									}
+								} else {
+									bl, ok1 := cc.List[0].(*ast.BasicLit)
+									es, ok2 := cc.Body[0].(*ast.ExprStmt)
+									if ok1 && ok2 {
+										if call, ok := es.X.(*ast.CallExpr); ok && len(call.Args) == 1 {
+											if v, ok := constInt(info, call.Args[0]); ok {
+												str, _ := strconv.Unquote(bl.Value)
+												facts.ParseStatusStrings = append(facts.ParseStatusStrings, [2]any{v, str})
+											}
+										}
+									}
+								}
+							}
+						}
+					}
+					return true
+				})
+				if len(conds) > 0 {
+					facts.Guards[name] = conds
+				}
+			}
+		}
+	}
+}
+
+func finishFacts() {
+	memo := map[*fnode]int{}
+	var count func(n *fnode, depth int) int
+	count = func(n *fnode, depth int) int {
+		if v, ok := memo[n]; ok {
+			return v
+		}
+		if depth > 12 {
+			return 0
+		}
+		memo[n] = 0
+		c := n.regs
+		for _, o := range n.callees {
+			if m, ok := fgraph[o]; ok {
+				c += count(m, depth+1)
+			}
+		}
+		memo[n] = c
+		return c
+	}
+	for _, n := range fgraph {
+		base := n.name
+		if i := strings.IndexByte(base, '.'); i >= 0 {
+			base = base[i+1:]
+		}
+		if (strings.HasPrefix(base, "With") || strings.HasPrefix(base, "Bind")) && strings.Contains(n.name, "inder.") {
+			facts.RegisterCalls[n.name] = count(n, 0)
+		}
+	}
 }
